@@ -745,7 +745,29 @@ def std_core():
 
 
 def schedule(prop, tier, seed):
-    """Returns (cases, make_harnesses(facts) -> [Harness])."""
+    """Returns (cases, make_harnesses(facts) -> [Harness]). In the thorough
+    tier every harness whose name/shape is not part of the quick tier's
+    validated set is marked optional (core.Harness.optional)."""
+    cases, mk = _schedule(prop, tier, seed)
+    if tier == "quick":
+        return cases, mk
+
+    def mk2(facts):
+        hs = mk(facts)
+        for h in hs:
+            t = h.meta.get("template", "")
+            heavy = (h.mem_gb >= 24 or h.timeout >= 2400 or t in ("stream_run", "ac_iter", "pk_teddy")
+                     or (t == "ov_drain" and h.meta.get("N", 0) >= 3) or (t.startswith("sim_n") and h.unwindset)
+                     or (t in ("replace_bytes", "replace_str") and h.meta.get("N", 0) >= 3)
+                     or (t == "stream_replace" and h.meta.get("T", 0) >= 2)
+                     or (t == "work" and h.meta.get("kind") != "dfa") or (t == "pk_find" and "many" in h.name)
+                     or (t in ("find", "iter2") and h.meta.get("kind") != "dfa"))
+            h.optional = bool(heavy)
+        return hs
+    return cases, mk2
+
+
+def _schedule(prop, tier, seed):
     quick = tier == "quick"
     if prop == "C01":
         cases = lm_core("lf") + lm_core("ll")
@@ -1158,8 +1180,18 @@ def schedule(prop, tier, seed):
                     hs.append(h)
                 if prop == "C18":
                     hs.append(h_stream_step(prop, c, facts, "dfa", t=c.maxlen + 3, spare=1, fault=True))
-                    if c is one or not quick:
-                        h = h_stream_replace(prop, c, facts, "dfa", t=1 if quick else 2, wfault=True, timeout=2400 if quick else 5400)
+                    if c is one:
+                        t_ = 1
+                        hw = Harness("h_swfault_%s_dfa_t%d" % (c.name, t_), c, _body(c, "dfa", "t::stream_wfault::<%s, _, %d, %d>(&a)" % (c.mod, t_, 2 * t_ + 2)),
+                                     max(base_unwind(c, facts, t_), c.maxlen + 3, 2 * t_ + 4), [],
+                                     dict(template="stream_wfault", kind="dfa", T=t_, cap=c.maxlen + 1,
+                                          symbolic=["stream bytes", "size of every read()", "index of the failing write() call"]),
+                                     timeout=1500, mem_gb=24, unwindset=stream_unwindset(c, t_, c.maxlen + 1),
+                                     unsat_ok={"a writer failure after some output"},
+                                     functions=["Automaton::try_stream_replace_all_with", "StreamChunkIter::new"] + F_STREAM + F_KIND["dfa"])
+                        hs.append(hw)
+                    if not quick:
+                        h = h_stream_replace(prop, c, facts, "dfa", t=2, wfault=True, timeout=5400)
                         h.mem_gb = 28
                         hs.append(h)
             return hs
@@ -1222,8 +1254,10 @@ def schedule(prop, tier, seed):
                     h.stubs = list(STUB_PF)
                 hs.append(h)
                 hs.append(h_fail_depth(prop, c, facts))
+                if not c.pf and not quick:
+                    # contiguous NFA over 2 symbolic bytes: 13 min / 16 GB (measured); thorough only
+                    hs.append(h_work(prop, c, facts, "cnfa", n=2, an=EITHER, timeout=3000))
                 if not c.pf and ("akb" in c.name or not quick):
-                    hs.append(h_work(prop, c, facts, "cnfa", n=2 if quick else 3, an=EITHER, timeout=1800 if quick else 3000))
                     if c.mk == "std":
                         hs.append(h_work(prop, c, facts, "nnfa", n=3 if not quick else 2, an=EITHER, timeout=1800))
                     elif not quick:
